@@ -33,7 +33,7 @@ From RM Require Proofs.Enc2SvReal.
 From RM Require Import Proofs.Enc2SvRT Proofs.Enc2Framing Proofs.Enc2SampleShape.
 From RM Require Import Proofs.Enc3Framing Proofs.Enc3Timing Proofs.Enc3Nodes Proofs.Enc3Objects Proofs.Enc3Chrono Proofs.Enc3NodeInv Proofs.Enc3Map Proofs.Enc3Example.
 From RM Require Import Proofs.MapLevelFacts.
-From RM Require Import Proofs.Enc4Inv Proofs.Enc4Times Proofs.Enc4Map.
+From RM Require Import Proofs.Enc4Inv Proofs.Enc4Times Proofs.Enc4Map Proofs.Enc4Stored.
 From Coq Require Sorting.Sorted.
 From Coq Require Reals.
 From RM Require Model.Curve.
@@ -1354,6 +1354,38 @@ Theorem C02_whole_milliseconds_not_d33 :
 Proof. exact whole_ms_not_d33. Qed.
 Print Assumptions C02_whole_milliseconds_not_d33.
 
+(* more generally, for the objects of decoded maps: whenever the real sum start + duration of the
+   STORED values is a binary64 number (the encoder's addition does not round) the object is not in
+   the class -- in particular when both lie on a common binary grid 2^-k with
+   |start + duration| < 2^(53-k) *)
+Theorem C02_decoded_exact_sum_not_d33 :
+  forall dist lines m h,
+  decode_beatmap dist lines = Done m -> In h (hov_hit_objects (bmv_ho m)) ->
+  match h_kind h with
+  | KSpinner sp => Generic_fmt.generic_format Zaux.radix2 (SpecFloat.fexp 53 1024)
+                     (Rdefinitions.Rplus (B2R (h_start h)) (B2R (sp_duration sp)))
+  | KHold hd => Generic_fmt.generic_format Zaux.radix2 (SpecFloat.fexp 53 1024)
+                     (Rdefinitions.Rplus (B2R (h_start h)) (B2R (hd_duration hd)))
+  | _ => True
+  end ->
+  d33_object h = false.
+Proof. exact decoded_sum_exact_not_d33. Qed.
+Print Assumptions C02_decoded_exact_sum_not_d33.
+
+Theorem C02_decoded_grid_not_d33 :
+  forall dist lines m h (k a b : Z),
+  decode_beatmap dist lines = Done m -> In h (hov_hit_objects (bmv_ho m)) ->
+  0 <= k <= 1074 ->
+  B2R (h_start h) = Rdefinitions.Rmult (Rdefinitions.IZR a) (Raux.bpow Zaux.radix2 (- k)) ->
+  match h_kind h with
+  | KSpinner sp => B2R (sp_duration sp) = Rdefinitions.Rmult (Rdefinitions.IZR b) (Raux.bpow Zaux.radix2 (- k))
+  | KHold hd => B2R (hd_duration hd) = Rdefinitions.Rmult (Rdefinitions.IZR b) (Raux.bpow Zaux.radix2 (- k))
+  | _ => True
+  end ->
+  Z.abs (a + b) < 2 ^ 53 -> d33_object h = false.
+Proof. exact decoded_grid_not_d33. Qed.
+Print Assumptions C02_decoded_grid_not_d33.
+
 (* two slider facts about EVERY map decoded with the real curve model: a combo offset is only
    present next to the new-combo flag (the decoder stores `if new_combo { offset } else { 0 }` with
    new_combo the bit of the type field, and every later step only SETS the flag) -- so "a slider
@@ -1582,7 +1614,8 @@ Proof. exact all_kinds_round_trip_classes. Qed.
      per-object loop) -- so the C02_times_ok_* theorems apply to decoded objects: an object in D33 had
      an end whose difference to the start is not a binary64 number and that fl(start + d) does not
      reproduce (C02_decoded_d33_inexact); whole-millisecond stored times are never in D33
-     (C02_whole_milliseconds_not_d33).  OPEN: a closed arithmetic description of D33 (WHICH pairs
+     (C02_whole_milliseconds_not_d33), nor is any decoded object whose stored start + duration is a
+     binary64 number (C02_decoded_exact_sum_not_d33; binary grids C02_decoded_grid_not_d33).  OPEN: a closed arithmetic description of D33 (WHICH pairs
      with a rounded difference lose the duration; most fractional pairs do not) -- not needed by the
      theorems, which are stated with the decidable class itself; the oracle checks each instance.
 
